@@ -86,6 +86,21 @@ def native_check(cfg, env=None, seed=0, warm=False):
         r0.fill_(0.5)
         if not torch.equal(x0, keep0):
             fails.append(("gibbs_steps(%d, x, overwrite=False) returned x itself / memory shared with x: editing the result changed the start state" % k0, None))
+    # k given as a 0-d tensor / numpy array / numpy integer: the same number of steps as the int, and the caller's object
+    # keeps its value (it is reused for the next call)
+    for kname, kobj in (("0-d tensor", torch.tensor(2)), ("0-d numpy array", np.array(2)), ("numpy integer", np.int64(2))):
+        xk = torch.tensor(rng.integers(0, 2, size=(4, cfg["nv"])), dtype=torch.double)
+        try:
+            torch.manual_seed(11)
+            a_ = rbm.gibbs_steps(kobj, xk)
+            torch.manual_seed(11)
+            b_ = rbm.gibbs_steps(kobj, xk)
+            torch.manual_seed(11)
+            c_ = rbm.gibbs_steps(2, xk)
+            if int(kobj) != 2 or not torch.equal(a_, c_) or not torch.equal(b_, c_):
+                fails.append(("gibbs_steps with k given as a %s: the caller's k changed or a reused k gives other chains than k = 2" % kname, int(kobj)))
+        except TypeError:
+            pass                # a kind of number the library does not take at all is not this property's business
     V = torch.tensor(vs, dtype=torch.double)
     pi = T.sum(1)
     # conditionals
